@@ -394,7 +394,7 @@ def prelude_text(header_lines):
 
 
 def coqc(args, cwd, timeout=900):
-    return sh(['coqc', '-Q', os.path.join(ROOT, 'coq'), 'SJ', '-Q', '.', 'DTV'] + args, cwd=cwd, timeout=timeout)
+    return sh(['coqc', '-noglob', '-Q', os.path.join(ROOT, 'coq'), 'SJ', '-Q', '.', 'DTV'] + args, cwd=cwd, timeout=timeout)
 
 
 def run_coq(prop, header, vecs, shard_size, log, tag='coq'):
